@@ -457,8 +457,11 @@ func (lp *batchLoop) skipByProgress(iff *ssa.If, skipOnTrue bool) string {
 		if rel != token.LEQ && rel != token.EQL && rel != token.LSS { // with progress >= mark, "<" never holds: the batch is never skipped
 			return "the last batch is skipped although the progress may exceed its value at the last batch"
 		}
-		// the index: a phi of the head that starts at 0 and steps by one on every way back
+		// the index: a phi of the head that starts at a constant c0 and steps by one on every way back, so
+		// that idx - c0 elements have been stored when the head is reached ("for i := 0; ..." has c0 = 0,
+		// the hidden counter of "for i := range list" has c0 = -1)
 		var idx *ssa.Phi
+		var idx0 int64
 		for _, ins := range h.Instrs {
 			ph, isPhi := ins.(*ssa.Phi)
 			if !isPhi {
@@ -468,10 +471,13 @@ func (lp *batchLoop) skipByProgress(iff *ssa.If, skipOnTrue bool) string {
 				continue
 			}
 			good := true
+			var c0 int64
 			for i, pr := range h.Preds {
 				if !body[pr] {
-					if c, isC := an.ConstOf(ph.Edges[i]); !isC || c.Sign() != 0 {
+					if c, isC := an.ConstOf(ph.Edges[i]); !isC || !c.IsInt64() {
 						good = false
+					} else {
+						c0 = c.Int64()
 					}
 					continue
 				}
@@ -483,7 +489,7 @@ func (lp *batchLoop) skipByProgress(iff *ssa.If, skipOnTrue bool) string {
 				}
 			}
 			if good {
-				idx = ph
+				idx, idx0 = ph, c0
 			}
 		}
 		if idx == nil {
@@ -506,7 +512,7 @@ func (lp *batchLoop) skipByProgress(iff *ssa.If, skipOnTrue bool) string {
 						return "a batch is handed over without the mark being set to the progress"
 					}
 					hi := an.LinFormWith(on[0].sl.High, w.sel)
-					if len(hi) != 2 || hi[idxKey] != 1 || hi[""] != 1 {
+					if hi[idxKey] != 1 || hi[""] != 1-idx0 || len(hi) > 2 || (len(hi) == 2 && 1-idx0 == 0) {
 						return "a batch does not end with the element just stored (" + an.Anon(an.LinString(hi)) + ")"
 					}
 					continue
